@@ -97,8 +97,10 @@ static const char* kScenarioNames[] = {
     "reject void p || then on the promise derived from it (rethrow), which already has a continuation",
     "resolve void p || then on the promise derived from it (promise-returning continuation), which already has a continuation",
     "resolve p || then on the promise derived from it (value continuation), which already has a continuation",
+    "resolve the pending promise a continuation returned || then on the derived promise, which already has two continuations",
+    "reject the pending promise a continuation returned || then on the derived promise, which already has two continuations",
 };
-static const int kNScenarios = 22;
+static const int kNScenarios = 24;
 
 static std::string what(std::exception_ptr e)
 {
@@ -127,9 +129,9 @@ static void settle_thread(void* a)
             (*w->slot.rej)(std::runtime_error("boom"));
         else if (w->scenario == 9 || w->scenario == 18 || w->scenario == 20)
             (*w->slot.res)();
-        else if (w->scenario == 11)
+        else if (w->scenario == 11 || w->scenario == 23)
             (*w->inner.rej)(std::runtime_error("boom"));
-        else if (w->scenario == 12)
+        else if (w->scenario == 12 || w->scenario == 22)
             (*w->inner.res)(7);
         else
             (*w->slot.res)(5);
@@ -198,6 +200,10 @@ static void attach_thread(void* a)
         case 17:
             (*w->slot2.rej)(std::runtime_error("bang"));
             break;
+        case 22:
+        case 23:
+            attach_to<2>(w, *w->d);
+            break;
         }
     }
     catch (const std::exception& e)
@@ -248,7 +254,9 @@ static void run_case(uint64_t idx, vr::Ctx& ctx)
             }));
             break;
         case 11:
-        case 12: {
+        case 12:
+        case 22:
+        case 23: {
             // the continuation returns a promise that is still pending; p is fulfilled right here, so the race is
             // between settling that inner promise and attaching to the derived one
             World* ww = w;
@@ -261,6 +269,12 @@ static void run_case(uint64_t idx, vr::Ctx& ctx)
                 },
                 Async::Throw)));
             (*w->slot.res)(5);
+            if (c.scenario >= 22)
+            {
+                // the derived promise's continuation list is exactly full (two entries, capacity two) when the race starts
+                attach_to<0>(w, *w->d);
+                attach_to<1>(w, *w->d);
+            }
             break;
         }
         case 18:
@@ -364,9 +378,9 @@ static void run_case(uint64_t idx, vr::Ctx& ctx)
         }
         else
         {
-            int expectVal[] = { 5, 5, 0, 6, 6, 10, 0, 5, 16, 1, 0, 0, 7, 0, 0, 0, 0, 0, 42, 0, 42, 42 };
-            bool rejecting  = c.scenario == 2 || c.scenario == 6 || c.scenario == 10 || c.scenario == 11 || c.scenario == 19;
-            int nconts      = (c.scenario == 1 || c.scenario == 7 || c.scenario >= 18) ? 2 : 1;
+            int expectVal[] = { 5, 5, 0, 6, 6, 10, 0, 5, 16, 1, 0, 0, 7, 0, 0, 0, 0, 0, 42, 0, 42, 42, 7, 0 };
+            bool rejecting  = c.scenario == 2 || c.scenario == 6 || c.scenario == 10 || c.scenario == 11 || c.scenario == 19 || c.scenario == 23;
+            int nconts      = c.scenario >= 22 ? 3 : (c.scenario == 1 || c.scenario == 7 || c.scenario >= 18) ? 2 : 1;
             for (int t = 0; t < 3; ++t)
                 if (!w->threw[t].empty())
                     ctx.violation(std::string("c12:exception-in-thread:") + kScenarioNames[c.scenario], detail("\"what\":" + vr::jstr(w->threw[t])));
